@@ -1,12 +1,100 @@
-(* C03 (supervisor core) - INTERIM statement file: the full simulation theorem for mon_C03 is being
-   proved in Sup/RelC03.v; until it lands, this file states what is already machine-checked for every
-   accepted history of the Sup model: the observer's picture (on which the monitor holds_C03 is
-   evaluated) agrees with the model state. *)
+(* C03 Shutdown completeness: after ShutDownProject returns nothing of its snapshot runs and nothing
+   starts without a new explicit start request.           (level: PROOF, partial - see the hypotheses)
+
+   This file contains only the statements; every proof is `exact <lemma>` (Sup/RelC03.v, Sup/ExC03.v).
+
+   Setting.  `accept (init cs ord) evs = Some s` : the history `evs` (trace points of the verif build:
+   (thread, event) pairs) is a run of the supervisor model Sup/Model.v for the project `cs`
+   (ordered-shutdown flag `ord`).  `holds_C03 cs evs` runs the monitor `mon_C03` (Sup/Monitors.v) over the
+   history; the monitor only looks at externally meaningful events and says, in plain words:
+
+   (a) at every `EShutdownEnd` of a thread th (ShutDownProject is about to return): for every instance i in
+       the snapshot that this shutdown took (the argument of th's `EShutdownOrder`), no command of i is
+       alive (every `ELaunch true` of i was followed by an `ECmdExit i`), and the status reported for i's
+       process name (last `EState _ st` written for that name) is not Running/Launching/Launched;
+   (b) at every successful launch `ELaunch true` of an instance i that happens after some shutdown has
+       completed: i was created (`ENewInst`) after the LAST completed shutdown by a thread that was inside
+       a StartProcess/RestartProcess call (an explicit new start request), or i was created by such a call
+       at any time and was never in the snapshot of a shutdown (the call was still in progress when the
+       shutdown took its snapshot).
+   ("Run() returns" is the stuck-freedom clause; it is not part of this monitor - see manifest.d/C03.json.)
+
+   Hypotheses of the theorem, both decidable on the history:
+   * `W_C03 (final_obs cs evs) = false` : the history did not go through one of four known check-then-act
+     windows (known_findings.json): F20/F21 commit, F37 sdlag, F25 dup, F38 zombie.  The other three
+     window flags (F26 late, F22 sdspawn, F32 stale) are NOT needed.
+   * `escapes_C03 cs evs = false` : nobody escaped a snapshot, i.e. (1) no instance was created after a
+     completed shutdown by Run()'s own spawn loop or outside any API call, and (2) at every
+     `EShutdownEnd` every instance that exists and is not in that shutdown's snapshot has already reached
+     `EInstExit` (its goroutine is over) or is "excused": created by a StartProcess/RestartProcess call,
+     never in a snapshot, and not yet begun by any goroutine (`EBegin`).  So an explicit start that overlaps
+     the shutdown is INSIDE the theorem (it waits for the registry lock that the shutdown holds); (2) fails
+     when Run()'s spawn loop overlaps the shutdown (F22) or - only in the model, not in the code - when an
+     instance was spawned without having been registered.
+   No well-formedness condition on the configuration is needed. *)
 From Coq Require Import List ZArith NArith Bool.
 From PC.Base Require Import Assoc.
-From PC.Sup Require Import Model Monitors RelCore Agreement RelC02.
+From PC.Sup Require Import Model Monitors Sim RelC03 RelC03b ExC03.
+Import ListNotations.
 
-Theorem C03_observer_agrees_with_model : forall cs ord evs s,
-  accept (init cs ord) evs = Some s -> Rc cs s (final_obs cs evs).
-Proof. exact sup_agreement. Qed.
-Print Assumptions C03_observer_agrees_with_model.
+Theorem C03_main_partial : forall cs ord evs s,
+  accept (init cs ord) evs = Some s ->
+  W_C03 (final_obs cs evs) = false ->
+  escapes_C03 cs evs = false ->
+  holds_C03 cs evs = true.
+Proof. exact C03_partial_lemma. Qed.
+Print Assumptions C03_main_partial.
+
+(* the same, with the monitor unfolded at the positions of the history: [final_obs cs pre] is the observer
+   state (facts accumulated from the events before that position: o_alive = launched and not yet exited,
+   r_status = last status written for the name, snap_of o th = snapshot of th's shutdown in progress,
+   o_sd_done = number of completed shutdowns, o_after_sd_spawn = instances created by an explicit start
+   request since the last completed shutdown) *)
+Theorem C03_declarative : forall cs ord evs s,
+  accept (init cs ord) evs = Some s ->
+  W_C03 (final_obs cs evs) = false ->
+  escapes_C03 cs evs = false ->
+  (forall pre th post, evs = pre ++ (th, EShutdownEnd) :: post ->
+     let o := final_obs cs pre in
+     forall i, In i (snap_of o th) ->
+       o_alive (oi_get o i) = false /\ is_running_status (r_status (on_get o (o_nm (oi_get o i)))) = false) /\
+  (forall pre th post i, evs = pre ++ (th, ELaunch true) :: post ->
+     let o := final_obs cs pre in
+     get th (o_th o) = Some i -> (0 < o_sd_done o)%nat ->
+     In i (o_after_sd_spawn o) \/ (o_byapi (oi_get o i) = true /\ o_insnap (oi_get o i) = false)).
+Proof. exact c03_declarative. Qed.
+Print Assumptions C03_declarative.
+
+(* Without the window hypothesis the statement is false of the model (and of the code: F20/F21): a stop
+   that finds the process Pending after it has passed its own "am I terminated" check lets it launch
+   after ShutDownProject returned.  25 events, accepted, monitor false. *)
+Theorem C03_refuted : exists cs ord evs s, accept (init cs ord) evs = Some s /\ holds_C03 cs evs = false.
+Proof. exact c03_refuted. Qed.
+Print Assumptions C03_refuted.
+
+(* The seven window flags alone do not suffice either (finding of this proof): a shutdown that completes
+   before Run() is called - Run() then launches everything.  Accepted, no window at all, monitor false:
+   part (1) of the `escapes_C03` hypothesis is needed. *)
+Theorem C03_windows_not_enough :
+  (exists s, accept (init c03_cs false) evs_c03_run_after = Some s) /\
+  any_window (final_obs c03_cs evs_c03_run_after) = false /\ holds_C03 c03_cs evs_c03_run_after = false.
+Proof. exact c03_windows_not_enough. Qed.
+Print Assumptions C03_windows_not_enough.
+
+(* a StartProcess that overlaps the shutdown (creates its instance before the snapshot, registers and launches
+   it after ShutDownProject returned) satisfies both hypotheses: the theorem covers such histories *)
+Example C03_start_overlap_covered :
+  (exists s, accept (init c03_cs false) evs_c03_start_overlap = Some s) /\
+  W_C03 (final_obs c03_cs evs_c03_start_overlap) = false /\ escapes_C03 c03_cs evs_c03_start_overlap = false /\
+  holds_C03 c03_cs evs_c03_start_overlap = true.
+Proof. exact c03_start_overlap_covered. Qed.
+
+(* non-vacuity: a 53-event history (Run, launch, ShutDownProject with signal / exit / end of the process,
+   Run returns, then an explicit StartProcess that launches a new instance) is accepted, satisfies both
+   hypotheses, contains a completed shutdown and a launch after it, and the monitor holds *)
+Example C03_nonvacuous :
+  (exists s, accept (init c03_cs false) evs_c03_ok = Some s) /\
+  W_C03 (final_obs c03_cs evs_c03_ok) = false /\ escapes_C03 c03_cs evs_c03_ok = false /\
+  holds_C03 c03_cs evs_c03_ok = true /\ length evs_c03_ok = 53%nat /\
+  In (5%N, EShutdownEnd) evs_c03_ok /\ In (3%N, ELaunch true) evs_c03_ok.
+Proof. exact c03_nonvacuous. Qed.
